@@ -184,7 +184,9 @@ theorem reorg_okMain_tip (cfg : Cfg) (nd : Node A) (n : Chain) (h : (reorg cfg n
       obtain ⟨nd1, ok⟩ := r1
       · simp only at h hmoved hvt ⊢
         cases ok with
-        | false => simp at h
+        | false =>
+          simp only [Bool.not_false, if_true] at h
+          split at h <;> simp at h
         | true =>
           simp only [Bool.not_true, Bool.false_eq_true, if_false] at h hmoved ⊢
           have hdt := disconnectN_tip (nd.tip.length - (forkOf nd.tip n).length) nd1
